@@ -51,13 +51,19 @@ def gen_C09(rng, tier):
         L = rng.choice([4, 5, 5, 6, 8, 12])
         seq = []
         for _ in range(L):
-            n = rng.choice(names + ["d", "e"])
+            n = rng.choice(names + ["d", "e", "A", "B", "Send", "send"])      # names are case-sensitive: a / A are two names
             c = rng.choice([None, None, "1", "2", "3", "007", "7", "0", "00", "4294967295", "4294967296", "99999999999"])
             seq.append((n, c))
         consts = {j for j in range(L) if rng.random() < 0.2}
         # "overloads": the same name with different parameter lists is still the same name
         params = [rng.choice(PARAMS) for _ in range(L)] if rng.random() < 0.5 else None
         cases.append(nm(f"r{i}", [("f", render(seq, consts, params))]))
+    # names differing by case only: exhaustive to length 3 over {a, A} x codes
+    alpha2 = [(n, c) for n in ("a", "A") for c in (None, "1", "2")]
+    for L in (2, 3):
+        for seq in itertools.product(alpha2, repeat=L):
+            cases.append(nm(f"cs{k}", [("f", render(seq))]))
+            k += 1
     # every sequence of length <= 2 once more with differing parameter lists
     for L in (2, 3):
         for seq in itertools.product(alphabet, repeat=L):
@@ -109,7 +115,10 @@ PROPS = {
     "C10": P(["Spec/Oneway.v", "Proofs/Oneway.v"] + MASTER + ["Properties/C10.v"], ["corr_C10", "spec_C10"],
              gens.with_histories(gens.gen_C10, every=5),
              "exhaustive: interface oneway x method oneway x 17 return categories; 2-3 methods over {void,int,Par,Nope} x oneway "
-             "with constants mixed in (3 methods sampled 25% in quick); oneway keyword after annotations/comments; random projects"),
+             "with constants mixed in (3 methods sampled 25% in quick); oneway keyword after annotations/comments; random projects; "
+             "generated interfaces in wild layouts (comments ended by LF, CRLF or a lone CR before the keyword): the oneway keywords "
+             "the text spells are the flags of the parse-stage tree",
+             runs=[("validate", "V", ["corr_C10", "spec_C10"]), ("parse", "P", [])], py_oracle=gens.o_C10),
     "C15": P(["Model/Traverse.v", "Spec/Nodes.v", "Proofs/Traverse.v", "Properties/C15.v"], [],
              lambda rng, tier: gens.gen_projects(rng, tier, 400, 6000),
              "hand-picked + random projects (all item kinds, member mixes, types nested to depth 4), validated; for each file with a "
